@@ -150,27 +150,28 @@ open FS
 
 theorem append_inj_left' (r p q : FPath) : r ++ q = r ++ p ↔ q = p := List.append_cancel_left_eq r q p ▸ Iff.rfl
 
-/-- **The delete phase.**  Processing the planned deletions in order, every call succeeds (no error, no
+/-- **The delete phase, any stretch of it.**  Processing the planned deletions in order, every call succeeds (no error, no
 link followed), and afterwards exactly the planned paths are gone; nothing outside the root changed. -/
-theorem run_dels {vis : FPath → Bool} {fs0 : FS} {r : FPath} {ld : List (FPath × Node)} {src : FPath → Option SEntry}
+theorem run_dels_gen {vis : FPath → Bool} {fs0 : FS} {r : FPath} {ld : List (FPath × Node)} {src : FPath → Option SEntry}
     {ls : List (FPath × SEntry)} (hw : DestWF vis fs0 r ld) (hs : SrcWF vis src ls)
     (hsafe : ∀ p c n, (p, Node.folder) ∈ planDel src ld → fs0.get (r ++ (p ++ [c])) = some n → vis (p ++ [c]) = true)
-    (todo : List (FPath × Node)) :
+    (todo rest : List (FPath × Node)) :
     ∀ (processed : List (FPath × Node)) (fs : FS),
-      planDel src ld = processed ++ todo →
+      planDel src ld = processed ++ todo ++ rest →
       (∀ p, fs.get (r ++ p) = if p ∈ processed.map (·.1) then none else fs0.get (r ++ p)) →
       (∀ q, ¬ r <+: q → fs.get q = fs0.get q) →
       ∃ fs', runOps (fun f x => delOp f r x) fs todo = .ok fs' ∧
-        (∀ p, fs'.get (r ++ p) = if p ∈ (planDel src ld).map (·.1) then none else fs0.get (r ++ p)) ∧
+        (∀ p, fs'.get (r ++ p) = if p ∈ (processed ++ todo).map (·.1) then none else fs0.get (r ++ p)) ∧
         (∀ q, ¬ r <+: q → fs'.get q = fs0.get q) := by
   induction todo with
   | nil =>
     intro processed fs hsplit hin hout
     refine ⟨fs, rfl, ?_, hout⟩
-    rw [hsplit, List.append_nil]; exact hin
+    rw [List.append_nil]; exact hin
   | cons x todo' ih =>
-    intro processed fs hsplit hin hout
+    intro processed fs hsplit0 hin hout
     obtain ⟨p, n⟩ := x
+    have hsplit : planDel src ld = processed ++ (p, n) :: (todo' ++ rest) := by rw [hsplit0]; simp
     have hpw := planDel_pairwise (src := src) hw.parentFirst
     rw [hsplit, List.pairwise_append] at hpw
     obtain ⟨-, hpw2, hcross⟩ := hpw
@@ -264,7 +265,25 @@ theorem run_dels {vis : FPath → Bool} {fs0 : FS} {r : FPath} {ld : List (FPath
       have : q ≠ r ++ p := by intro e; subst e; exact hq (List.prefix_append r p)
       simp [this, hout q hq]
     obtain ⟨fs', hrun, h1, h2⟩ := ih (processed ++ [(p, n)]) (fs.set (r ++ p) none) (by simp [hsplit]) hin' hout'
-    exact ⟨fs', by simp only [runOps, hop, OpR.bind]; exact hrun, h1, h2⟩
+    refine ⟨fs', by simp only [runOps, hop, OpR.bind]; exact hrun, ?_, h2⟩
+    intro q; rw [h1 q, List.append_assoc]; rfl
+
+/-- **The delete phase.**  Processing the planned deletions in order, every call succeeds (no error, no
+link followed), and afterwards exactly the planned paths are gone; nothing outside the root changed. -/
+theorem run_dels {vis : FPath → Bool} {fs0 : FS} {r : FPath} {ld : List (FPath × Node)} {src : FPath → Option SEntry}
+    {ls : List (FPath × SEntry)} (hw : DestWF vis fs0 r ld) (hs : SrcWF vis src ls)
+    (hsafe : ∀ p c n, (p, Node.folder) ∈ planDel src ld → fs0.get (r ++ (p ++ [c])) = some n → vis (p ++ [c]) = true)
+    (todo : List (FPath × Node)) :
+    ∀ (processed : List (FPath × Node)) (fs : FS),
+      planDel src ld = processed ++ todo →
+      (∀ p, fs.get (r ++ p) = if p ∈ processed.map (·.1) then none else fs0.get (r ++ p)) →
+      (∀ q, ¬ r <+: q → fs.get q = fs0.get q) →
+      ∃ fs', runOps (fun f x => delOp f r x) fs todo = .ok fs' ∧
+        (∀ p, fs'.get (r ++ p) = if p ∈ (planDel src ld).map (·.1) then none else fs0.get (r ++ p)) ∧
+        (∀ q, ¬ r <+: q → fs'.get q = fs0.get q) := by
+  intro processed fs hsplit hin hout
+  obtain ⟨fs', h1, h2, h3⟩ := run_dels_gen hw hs hsafe todo [] processed fs (by simpa using hsplit) hin hout
+  exact ⟨fs', h1, by rw [hsplit]; exact h2, h3⟩
 
 /-- **The delete phase without the safety hypothesis**: whatever the filters hide, the phase either succeeds (as in
 `run_dels`) or stops with an *error* (a folder that still holds a hidden entry cannot be removed) — it never follows a
@@ -460,26 +479,27 @@ theorem dels_key_listed {vis : FPath → Bool} {fs0 : FS} {r : FPath} {ld : List
   obtain ⟨h3, -, h4⟩ := (hw.listed a.1 a.2).mp h1
   exact ⟨a.2, h4, h2, h3⟩
 
-/-- **The copy phase.** -/
-theorem run_cpys {vis : FPath → Bool} {fs0 : FS} {r : FPath} {ld : List (FPath × Node)} {src : FPath → Option SEntry}
+/-- **The copy phase, any stretch of it.** -/
+theorem run_cpys_gen {vis : FPath → Bool} {fs0 : FS} {r : FPath} {ld : List (FPath × Node)} {src : FPath → Option SEntry}
     {ls : List (FPath × SEntry)} (hw : DestWF vis fs0 r ld) (hs : SrcWF vis src ls)
-    (todo : List (FPath × SEntry)) :
+    (todo rest : List (FPath × SEntry)) :
     ∀ (processed : List (FPath × SEntry)) (fs : FS),
-      planCpy (fun p => fs0.get (r ++ p)) ls = processed ++ todo →
+      planCpy (fun p => fs0.get (r ++ p)) ls = processed ++ todo ++ rest →
       (∀ q, fs.get (r ++ q) = if q ∈ processed.map (·.1) then (src q).map written else afterDels fs0 r src ld q) →
       (∀ q, ¬ r <+: q → fs.get q = fs0.get q) →
       ∃ fs', runOps (fun f x => cpyOp f r x) fs todo = .ok fs' ∧
-        (∀ q, fs'.get (r ++ q) = if q ∈ (planCpy (fun p => fs0.get (r ++ p)) ls).map (·.1) then (src q).map written
+        (∀ q, fs'.get (r ++ q) = if q ∈ (processed ++ todo).map (·.1) then (src q).map written
           else afterDels fs0 r src ld q) ∧
         (∀ q, ¬ r <+: q → fs'.get q = fs0.get q) := by
   induction todo with
   | nil =>
     intro processed fs hsplit hin hout
     refine ⟨fs, rfl, ?_, hout⟩
-    rw [hsplit, List.append_nil]; exact hin
+    rw [List.append_nil]; exact hin
   | cons x todo' ih =>
-    intro processed fs hsplit hin hout
+    intro processed fs hsplit0 hin hout
     obtain ⟨p, e⟩ := x
+    have hsplit : planCpy (fun p => fs0.get (r ++ p)) ls = processed ++ (p, e) :: (todo' ++ rest) := by rw [hsplit0]; simp
     have hpw : (planCpy (fun p => fs0.get (r ++ p)) ls).Pairwise (fun a b => ¬ b.1 <+: a.1) := by
       unfold planCpy; exact hs.parentFirst.filter _
     rw [hsplit, List.pairwise_append] at hpw
@@ -614,7 +634,24 @@ theorem run_cpys {vis : FPath → Bool} {fs0 : FS} {r : FPath} {ld : List (FPath
       have : q ≠ r ++ p := by intro e1; subst e1; exact hq (List.prefix_append r p)
       simp [this, hout q hq]
     obtain ⟨fs', hrun, h1, h2⟩ := ih (processed ++ [(p, e)]) fs1 (by simp [hsplit]) hin' hout'
-    exact ⟨fs', by simp only [runOps, hop1, OpR.bind]; exact hrun, h1, h2⟩
+    refine ⟨fs', by simp only [runOps, hop1, OpR.bind]; exact hrun, ?_, h2⟩
+    intro q; rw [h1 q, List.append_assoc]; rfl
+
+/-- **The copy phase.** -/
+theorem run_cpys {vis : FPath → Bool} {fs0 : FS} {r : FPath} {ld : List (FPath × Node)} {src : FPath → Option SEntry}
+    {ls : List (FPath × SEntry)} (hw : DestWF vis fs0 r ld) (hs : SrcWF vis src ls)
+    (todo : List (FPath × SEntry)) :
+    ∀ (processed : List (FPath × SEntry)) (fs : FS),
+      planCpy (fun p => fs0.get (r ++ p)) ls = processed ++ todo →
+      (∀ q, fs.get (r ++ q) = if q ∈ processed.map (·.1) then (src q).map written else afterDels fs0 r src ld q) →
+      (∀ q, ¬ r <+: q → fs.get q = fs0.get q) →
+      ∃ fs', runOps (fun f x => cpyOp f r x) fs todo = .ok fs' ∧
+        (∀ q, fs'.get (r ++ q) = if q ∈ (planCpy (fun p => fs0.get (r ++ p)) ls).map (·.1) then (src q).map written
+          else afterDels fs0 r src ld q) ∧
+        (∀ q, ¬ r <+: q → fs'.get q = fs0.get q) := by
+  intro processed fs hsplit hin hout
+  obtain ⟨fs', h1, h2, h3⟩ := run_cpys_gen hw hs todo [] processed fs (by simpa using hsplit) hin hout
+  exact ⟨fs', h1, by rw [hsplit]; exact h2, h3⟩
 
 end Rj
 
